@@ -1,9 +1,10 @@
-(* extraction of the C02 executable models (lexer + PlainEnglish + Document::parse passes); ExtrOcamlBasic only.
+(* extraction of the C02 executable models (lexer + PlainEnglish + Document::parse passes + the wrapper parsers IsolateEnglish / CollapseIdentifiers); ExtrOcamlBasic only.
    The Unicode predicates are the fields of the record `uni` (constructor mkuni): the driver fills them from
    the range tables the harness dumps from Rust's own char methods. *)
 Require Extraction.
 Require Import ExtrOcamlBasic.
-Require Import Base Overlap Tables_lexer Lexer Condense.
+Require Import Base Overlap Tables_lexer Lexer Condense C02Wrappers.
 Extraction Language OCaml.
 Extraction "../ocaml/gen/c02_model.ml" mkuni lex_token plain_parse document_passes document_plain
-  punct_from_char quote_chars punct_name currency_name suffix_name.
+  punct_from_char quote_chars punct_name currency_name suffix_name
+  isolate_english collapse_identifiers dict_of document_plain_ie document_plain_ci.
